@@ -13,7 +13,7 @@ CONSTANTS
   Dev_SizeHint = FALSE
   Dev_RsrcRecursion = FALSE
   Dev_FirstDepth = TRUE
-  Dev_KidsDepth = TRUE
+  Dev_KidsDepth = FALSE
   FirstWalkIterative = FALSE
   StackFrames = 9
   OutlineDepthLimit = 5
